@@ -73,7 +73,13 @@ def gen(rng, idx, tier):
                     if ons and c[0][2] is None:
                         k = ons[0]
                         c[:] = c[k:] + c[:k]
-    return {"stratum": stratum,
+    # the same source through the interpolatable TrueType path (two identical masters): the
+    # first master must satisfy the same clauses (the joint conversion of identical curves is
+    # the single conversion; implied on-curve points are always kept there)
+    interp = stratum == "default" and opts.get("allQuadratic", True) and rng.random() < 0.12
+    if interp:
+        opts["dropImpliedOnCurves"] = False
+    return {"stratum": stratum, "interp": interp,
             "ufo": {"glyphs": glyphs, "info": {"unitsPerEm": rng.choice([1000, 1000, 2048]),
                                                "familyName": "T", "styleName": "R"}},
             "lib": rng.choice(["defcon", "ufoLib2"]), "opts": opts, "has_cubic": has_cubic}
@@ -125,7 +131,13 @@ def run(case):
     kw = dict(useProductionNames=False, **opts)
     will_keep_cubic_v0 = (not opts["convertCubics"]) and opts["allQuadratic"] and case["has_cubic"]
     try:
-        ttf = ufo2ft.compileTTF(font, **kw)
+        if case.get("interp"):
+            kw2 = {k: v for k, v in kw.items() if k != "dropImpliedOnCurves"}
+            ttf = list(ufo2ft.compileInterpolatableTTFs(
+                [font, build_ufo(spec, case["lib"])], **kw2))[0]
+            bump("interpolatable_path_runs")
+        else:
+            ttf = ufo2ft.compileTTF(font, **kw)
         buf = io.BytesIO()
         ttf.save(buf)
     except ValueError as e:
